@@ -328,6 +328,10 @@ pub fn child_main(spec: &str) {
         db::runtime().block_on(async move { d.ingest_efficient(initial_table()).await });
     }
     let _ = db::take_panics();
+    if !db::learn_pool_threads(&dbh, threads) {
+        println!("(nostart)");
+        std::process::exit(0);
+    }
     println!("(ready)");
     let mut wedged = false;
     for (ri, round) in it[3..].iter().enumerate() {
